@@ -261,6 +261,24 @@ def run(ctx, only=None, floors=True, clients=None):
             ctx.ok("R17.6", key, "every normal return follows the ordering call")
     ctx.count("order_wrappers", n_wrap)
 
+    # ---- R17.7 the order handed out is the stack the pushes built
+    ctx.rule("R17.7", "the function that runs the orderer returns the stack exactly as the pushes built it: no retain / truncate / dedup / remove / sort / reverse between the last push and the return (reachable dependencies that were not listed belong to the order; re-sorting destroys dependencies-first)")
+    n_ent = 0
+    MUTATE = re.compile(r"Vec::<.*>::(retain|retain_mut|truncate|dedup\w*|drain|remove|pop|swap_remove|clear|split_off|insert)$|slice::<impl \[T\]>::(sort\w*|reverse|swap|rotate_\w+|select_nth\w*)$|::(sort|sort_by|sort_by_key|sort_unstable\w*|reverse)$")
+    for gid, g in sorted(entries.items()):
+        if g.kind == "Closure":
+            continue
+        gb = Body(g)
+        n_ent += 1
+        hits = [(bi, callee_name(t)) for bi, t in gb.calls() if MUTATE.search(callee_name(t) or "")]
+        key = g.short
+        if hits:
+            ctx.violation("R17.7", key, "%s alters the ordered stack with %s after the pushes: items that were ordered are dropped or moved (a dependency that was reachable but not listed disappears from the order; a re-sort breaks dependencies-first)" % (g.short, ", ".join(sorted({h[1].split("::")[-1] for h in hits}))), gb.site(hits[0][0]), key)
+        else:
+            ctx.ok("R17.7", key, "stack returned as built")
+    if floors:
+        ctx.floor("R17.7", "order_entry_functions_scanned", n_ent, 3)
+
     # ---- R17.3 clients push every dependency
     n_proc = 0
     generic = only is None or any(f.id.startswith("layout21utils::") for f, _, _ in orderers)
